@@ -235,13 +235,23 @@ def translate_random_function(tree):
         raise Unsupported('RandomFunction.gen_sample: inner function not found')
     scale = shift = None
     arg = None
+    # closure variables of the inner function that are plain copies of configuration keys (x = self.config['x'])
+    closure = {}
+    for s in fn.body:
+        if isinstance(s, ast.Assign) and len(s.targets) == 1 and isinstance(s.targets[0], ast.Name) \
+                and cfg_key(s.value) is not None:
+            closure[s.targets[0].id] = cfg_key(s.value)
+    scale_params = None
     for s in inner.body:
         if isinstance(s, ast.Assign) and isinstance(s.targets[0], ast.Name) and s.targets[0].id == 'fullsum' \
                 and not isinstance(s.value, ast.Call):
             tr = pyq.Tr()
             scale = tr.num(s.value)
-            if sorted(tr.config_keys) != ['amplitude', 'num_terms']:
-                raise Unsupported('random_function: scaling reads %r' % tr.config_keys)
+            names = sorted({n.id for n in ast.walk(s.value) if isinstance(n, ast.Name)} - {'self', 'fullsum'})
+            for n in names:
+                if closure.get(n) != n:
+                    raise Unsupported('random_function: scaling uses %r, which is not a copy of config[%r]' % (n, n))
+            scale_params = (sorted(tr.config_keys), names)
         if isinstance(s, ast.AugAssign) and isinstance(s.target, ast.Name) and s.target.id == 'fullsum':
             if not isinstance(s.op, ast.Add) or cfg_key(s.value) != 'center':
                 raise Unsupported('random_function: translation step')
@@ -253,7 +263,12 @@ def translate_random_function(tree):
             arg = True
     if scale is None or not shift or not arg:
         raise Unsupported('random_function: scaling / translation / sinusoid statements not found')
-    out.append('Definition gen_rf_scale (v_fullsum cfg_amplitude cfg_num_terms : Q) : Q :=\n  %s.\n' % scale)
+    # the generated definition always takes (fullsum, amplitude, num_terms, input_dim); anything else is outside the subset
+    if not (set(scale_params[0]) <= {'amplitude', 'num_terms', 'input_dim'} and set(scale_params[1]) <= {'num_terms', 'input_dim'}):
+        raise Unsupported('random_function: scaling reads %r / %r' % scale_params)
+    for n in ('num_terms', 'input_dim'):
+        scale = scale.replace('v_' + n, 'cfg_' + n)
+    out.append('Definition gen_rf_scale (v_fullsum cfg_amplitude cfg_num_terms cfg_input_dim : Q) : Q :=\n  %s.\n' % scale)
     return '\n'.join(out)
 
 
